@@ -97,6 +97,8 @@ fn build_steps(st: &mut Store, r: &mut Rng, a: &ANode, order: usize, ops: &mut V
         o
     }
     fn created(o: Outcome) -> Option<Handle> { if let Outcome::Ok(Some(h)) = o { Some(h) } else { None } }
+    // a cheap deterministic choice source: changes with every node created so far
+    fn mix(st: &Store) -> usize { let n = st.known.len(); (n * 2654435761usize) >> 7 }
     // create a node (with its declarations and attributes for an element), unattached
     fn create(st: &mut Store, a: &ANode, ops: &mut Vec<Op>, obs: &mut Vec<String>) -> Option<Handle> {
         match a {
@@ -105,8 +107,27 @@ fn build_steps(st: &mut Store, r: &mut Rng, a: &ANode, order: usize, ops: &mut V
             ANode::Pi(t, d) => created(run(st, Op::NewPi(*t, d.clone()), ops, obs)),
             ANode::Elem { name, ns, attrs, .. } => {
                 let e = created(run(st, Op::NewEl(*name), ops, obs))?;
-                for (p, n) in ns { run(st, Op::SetNs(e, *p, *n), ops, obs); }
-                for (n, v) in attrs { run(st, Op::SetAttr(e, *n, v.clone()), ops, obs); }
+                // declarations and attributes in a random interleaving (each list in its own order), each one either through
+                // the map API or as a node of its own attached with append_namespace_node / append_attribute_node / any_append
+                let (mut i, mut j) = (0usize, 0usize);
+                while i < ns.len() || j < attrs.len() {
+                    let take_ns = if i >= ns.len() { false } else if j >= attrs.len() { true } else { mix(st) % 2 == 0 };
+                    if take_ns {
+                        let (p, n) = ns[i];
+                        i += 1;
+                        match mix(st) % 3 {
+                            0 => { run(st, Op::SetNs(e, p, n), ops, obs); }
+                            k => { let node = created(run(st, Op::NewNs(p, n), ops, obs))?; run(st, if k == 1 { Op::AppendNsNode(e, node) } else { Op::AnyAppend(e, node) }, ops, obs); }
+                        }
+                    } else {
+                        let (n, v) = attrs[j].clone();
+                        j += 1;
+                        match mix(st) % 3 {
+                            0 => { run(st, Op::SetAttr(e, n, v), ops, obs); }
+                            k => { let node = created(run(st, Op::NewAttr(n, v), ops, obs))?; run(st, if k == 1 { Op::AppendAttrNode(e, node) } else { Op::AnyAppend(e, node) }, ops, obs); }
+                        }
+                    }
+                }
                 Some(e)
             }
             ANode::Doc(_) => created(run(st, Op::NewDoc, ops, obs)),
